@@ -180,6 +180,9 @@ fn rel<E: PartialEq>(a: &Option<(E, E)>, b: &Option<(E, E)>, neg_b: &Option<(E, 
         "P=Q"
     } else if a == neg_b {
         "P=-Q"
+    } else if a.as_ref().map(|p| &p.1) == b.as_ref().map(|p| &p.1) {
+        // different points with the same y (x differs by a cube root of unity)
+        "same-y-different-x"
     } else {
         "generic"
     }
@@ -624,7 +627,7 @@ pub fn run(ctx: &Arc<Ctx>) {
     let _ = frob_images();
     let pr = sm9::params();
     let (pp, n) = (pr.p.clone(), pr.n.clone());
-    ctx.set_rule("Fp and mod N: limb-pattern + boundary alphabets, unary ops on all, binary ops on all x extreme (thorough all x all). Fp2: all 24x24 boundary elements, unary on all, binary on all pairs. Fp4: all 6^4 elements over {0,1,p-1,2,seeded x2}, unary on all, binary on all x 64 (thorough all pairs). Fp12: one element per subset of zero components (4096) + basis + +-1: unary ops (sqr, inv, neg, double, triple, div2, Frobenius 1/2/3/6, to_bytes) on all, pow with boundary exponents, mul/add/sub against 64 partners, sparse line multiplication with every zero pattern of its 3 coefficients. Booth recoding for w in {5,7}: every k < 2^16, every d*2^(wi) and 2^(w(i+1)) - d*2^(wi). G1/G2: [j]P x 4 Jacobian representations + infinity, all ordered pairs through add / sub / add_full / equality, unary ops, scalar multiplication over every Booth (window, digit) combination and boundary scalars, all 37x64 fixed-base table entries. Oracle: polynomial-basis Fp12 = Fp[w]/(w^12+2) and affine big-integer group law.");
+    ctx.set_rule("Fp and mod N: limb-pattern + boundary alphabets, unary ops on all, binary ops on all x extreme (thorough all x all). Fp2: all 24x24 boundary elements, unary on all, binary on all pairs. Fp4: all 6^4 elements over {0,1,p-1,2,seeded x2}, unary on all, binary on all x 64 (thorough all pairs). Fp12: one element per subset of zero components (4096) + basis + +-1: unary ops (sqr, inv, neg, double, triple, div2, Frobenius 1/2/3/6, to_bytes) on all, pow with boundary exponents, mul/add/sub against 64 partners, sparse line multiplication with every zero pattern of its 3 coefficients. Booth recoding for w in {5,7}: every k < 2^16, every d*2^(wi) and 2^(w(i+1)) - d*2^(wi). G1/G2: [j]P x 4 Jacobian representations + infinity (j incl. lambda, lambda^2 with lambda^2+lambda+1 = 0 mod N: different points with the same y), all ordered pairs through add / sub / add_full / equality, unary ops, scalar multiplication over every Booth (window, digit) combination and boundary scalars, all 37x64 fixed-base table entries. Oracle: polynomial-basis Fp12 = Fp[w]/(w^12+2) and affine big-integer group law.");
     let mut cases: Vec<Case> = Vec::new();
     let hx = |x: &BigUint| hexbig(x);
     let mut g = SplitMix::new(ctx.seed, "c13");
@@ -796,7 +799,33 @@ pub fn run(ctx: &Arc<Ctx>) {
         }
     }
     // ---- G1
-    let js: Vec<BigUint> = vec![BigUint::one(), BigUint::from(2u32), BigUint::from(3u32), BigUint::from(5u32), &n - 1u32, &n - 2u32, g.nonzero_below(&n)];
+    let mut js: Vec<BigUint> = vec![BigUint::one(), BigUint::from(2u32), BigUint::from(3u32), BigUint::from(5u32), &n - 1u32, &n - 2u32, g.nonzero_below(&n)];
+    // the curve has j-invariant 0: (x, y) -> (w x, y) with w^3 = 1 is the multiplication by lambda, lambda^2 + lambda + 1 = 0
+    // mod N. [j]P, [j lambda]P and [j lambda^2]P are three DIFFERENT points with the SAME y (they sum to infinity).
+    let lambda = {
+        let e = (&n - 1u32) / 3u32;
+        let mut h = BigUint::from(2u32);
+        loop {
+            let l = h.modpow(&e, &n);
+            if !l.is_one() {
+                break l;
+            }
+            h += 1u32;
+        }
+    };
+    if !((&lambda * &lambda + &lambda + 1u32) % &n).is_zero() {
+        ctx.machinery_error("lambda is not a primitive cube root of unity mod N");
+    }
+    {
+        let p1 = sm9::g1_mul(&lambda, &pr.p1);
+        if p1.as_ref().map(|p| &p.1) != pr.p1.as_ref().map(|p| &p.1) || p1 == pr.p1 {
+            ctx.machinery_error("[lambda]P1 does not share y with P1");
+        }
+    }
+    let lambda2 = (&lambda * &lambda) % &n;
+    js.push(lambda.clone());
+    js.push(lambda2.clone());
+    js.push((BigUint::from(3u32) * &lambda) % &n);
     let lambdas: Vec<BigUint> = vec![BigUint::one(), BigUint::from(2u32), &pp - 1u32, g.nonzero_below(&pp)];
     let mut reps: Vec<(BigUint, BigUint)> = Vec::new();
     for j in &js {
@@ -818,6 +847,10 @@ pub fn run(ctx: &Arc<Ctx>) {
         sc1.push(("small".into(), BigUint::from(v)));
     }
     for (t, v) in [("N-1", &n - 1u32), ("N", n.clone()), ("N+1", &n + 1u32), ("2^256-1", (BigUint::one() << 256usize) - 1u32)] {
+        sc1.push((t.into(), v));
+    }
+    // multiples whose last ladder step adds two different points with the same y
+    for (t, v) in [("lambda", lambda.clone()), ("lambda^2", lambda2.clone()), ("N-lambda", &n - &lambda), ("64*lambda^2", (BigUint::from(64u32) * &lambda2) % &n), ("64*lambda", (BigUint::from(64u32) * &lambda) % &n), ("32*lambda", (BigUint::from(32u32) * &lambda) % &n), ("lambda+1", &lambda + 1u32), ("lambda-1", &lambda - 1u32)] {
         sc1.push((t.into(), v));
     }
     for _ in 0..4 {
